@@ -53,7 +53,15 @@ static Verdict run_c11(const Case &c)
     EncCase e = enc_from(c);
     T = e.T;
     chunk = e.chunk;
-    base = ref::encrypt_file(e.P, fparams(e));
+    base = base_file(e, c.geti("toolbase") != 0);
+    if (base.size() < 84)
+    {
+      // the tool could not produce the base file: another property's business
+      v.classes.push_back("toolbase_unavailable");
+      return v;
+    }
+    if (c.geti("toolbase"))
+      v.classes.push_back("base_written_by_the_tool");
     if (c.get("keykind", "right") == "right")
       key = e.key;
     if (kind == "truncs")
@@ -207,6 +215,7 @@ static Case gen_c11()
     return c;
   }
   gen_base(c);
+  c.seti("toolbase", g::coin(50) ? 1 : 0);
   c.set("keykind", g::coin(80) ? "right" : "wrong");
   if (c.get("keykind") == "wrong")
     c.setb("key", g::raw(16));
@@ -289,6 +298,8 @@ static void fixed_c11(Ctx &ctx)
         c.seti("hmode", hm);
         c.seti("T", 1 + (cm + hm) % 3);
         c.seti("chunk", 32);
+        c.seti("refill", 1 + (cm + hm) % 3);
+        c.seti("toolbase", (cm + hm) % 2);
         c.set("keykind", "right");
         eval_fixed(*p, ctx, c);
       }
